@@ -19,10 +19,11 @@ LEVEL = "exploration"
 TECHNIQUE = "deterministic simulation: several concurrent writers (real clients over the simulated wire, raw multi-switch writes, driver-side assignments) on switch vectors of every rule; rule invariant checked on driver state per operation, on every published update (router tap) and on every client view after every delivered message"
 RULE = ("scenario = one device with switch vectors (rule x 1..5 switches x arbitrary initial configuration) x sequence of operations from "
         "several actors {client write On/Off to one switch, client write naming several switches incl. duplicates and contradictory pairs "
-        "(raw newSwitchVector), driver value=, bool_value=, set_value(), selected_value=, selected_values=} with seeded gaps x network knobs; "
+        "(raw newSwitchVector), driver value=, bool_value=, set_value(), selected_value=, selected_values=} with seeded gaps x fault {the publication of a driver-side assignment raises} x network knobs; "
         "distinct transitions (rule, n, pre-state, operation, target) are counted; non-trivial = at least 3 operations applied")
 COMPONENTS = c01.COMPONENTS
 ASSUMPTIONS = [
+    "fault publication_raises: the assignment itself raises, so 'turning a switch On leaves it On' is not demanded of it - the rule clauses are",
     "all clauses are pre -> post implications: a configuration that violates the rule before an operation (odd initial defaults) cannot alarm",
     "it is not demanded that the first of two Ons in one multi-switch OneOfMany write stays On",
     "client writes and driver-side operations are applied one router call at a time (asyncio callbacks are atomic), so 'concurrent' means interleaved at message granularity with seeded arrival order",
@@ -88,6 +89,11 @@ def generate(seed, tier, index):
                 steps[-1]["iters"] = rng.randint(1, 8)
         else:
             steps.append({"op": "settle"})
+    for st in steps:
+        if st["op"] in ("d_assign", "d_bool", "d_set_value", "d_select") and rng.random() < 0.12:
+            # fault: the publication of this assignment fails - an endpoint registered with the router raises while the update
+            # is handed to it (a connection that has just died); the assignment raises, the rule must hold all the same
+            st["pub_fails"] = True
     net = {"latency": rng.choice(["zero", "lan", "slow", "bursty", "skew"]),
            "frag": rng.choice(["whole", "fixed:1", "fixed:7", "random", "coalesce"]), "hwm": rng.choice([0, 64, 65536])}
     # drivers commonly react to a switch change by updating the property's state (which publishes the vector again):
@@ -102,7 +108,7 @@ def generate(seed, tier, index):
 def execute(scen):
     net = scen["net"]
     cfg = NetConfig(latency=net["latency"], frag_default=net["frag"], hwm=net["hwm"])
-    viol, probes = [], {}
+    viol, probes, faults = [], {}, {}
     facts = {"latency": net["latency"], "frag": net["frag"]}
     spec = scen["devices"][0]
     vspecs = {v["name"]: v for v in spec["levels"][0]["groups"]["g0"]["vectors"].values()}
@@ -141,6 +147,18 @@ def execute(scen):
             return build
 
         stack = Stack(sim, scen["devices"], extra_attrs=extra)
+
+        from indi.routing import Client as RouterClient
+
+        class DyingEndpoint(RouterClient):
+            armed = False
+
+            def message_from_device(self, message):
+                if self.armed and message.tag_name() == "setSwitchVector":
+                    self.armed = False
+                    raise ConnectionResetError("sim: endpoint died while the update was handed to it")
+
+        dying = DyingEndpoint()  # registered at its first use, i.e. behind the connections made at the start: they are served first
         for _ in range(scen["nclients"]):
             stack.add_client(start=False)
         raw = stack.add_raw("rawwriter")
@@ -256,9 +274,24 @@ def execute(scen):
             begin_op(vname)
             before = dict(pre[vname])
             ok_before = pre_ok[vname]
+            if st.get("pub_fails"):
+                if dying not in stack.router.clients:
+                    stack.router.register_client(dying)
+                dying.armed = True
             res = apply_step(stack, st)
+            injected = bool(st.get("pub_fails")) and not dying.armed and res.error is not None and "endpoint died" in res.error
+            dying.armed = False
             after = cur(vname)
             applied_ops += 1
+            if injected:
+                faults["publication_raises"] = faults.get("publication_raises", 0) + 1
+                on_after = sum(1 for v in after.values() if v == "On")
+                ctx = f"{op} {st.get('el')}={st.get('value')!r} on {vname} ({rule}) {before} -> {after}, the publication of which failed"
+                if rule == "OneOfMany" and ok_before and on_after != 1:
+                    viol.append({"clause": "C09.oneof", "detail": ctx, "facts": dict(facts, rule=rule, op=op, fault="publication_raises")})
+                elif rule == "AtMostOne" and ok_before and on_after > 1:
+                    viol.append({"clause": "C09.atmost", "detail": ctx, "facts": dict(facts, rule=rule, op=op, fault="publication_raises")})
+                continue
             key = tuple(sorted(before.items()))
             transitions.add((rule, n, key, op, st.get("el"), st.get("value")))
             f2 = dict(facts, rule=rule, op=op)
@@ -325,7 +358,7 @@ def execute(scen):
         digest = sim.digest()
         vtime, steps = sim.loop.time(), sim.loop.steps
     sig = repr((sorted({t[:2] + (t[3] if len(t) > 3 else "",) for t in map(lambda x: tuple(map(str, x)), transitions)}), net["latency"], net["frag"]))
-    return {"violations": viol[:1], "digest": digest, "probes": probes, "faults": {}, "steps": steps, "vtime": vtime, "sig": sig,
+    return {"violations": viol[:1], "digest": digest, "probes": probes, "faults": faults, "steps": steps, "vtime": vtime, "sig": sig,
             "nontrivial": applied_ops >= 3,
             "extra": {"switch_transitions": [c01_hash(t) for t in transitions]},
             "sample": {"net": net, "rules": [v["rule"] for v in vspecs.values()], "steps": scen["steps"][:10]}}
